@@ -24,7 +24,7 @@ class PC:
     mKeyStrings = SP()
 
 
-def table_bytes(K, complex_at, DT, DA, ncfg=1):
+def table_bytes(K, complex_at, DT, DA, ncfg=1, compact=False):
     """raw entry bytes per (resource, configuration): plain Res_value entries; entry `complex_at` is a ResTable_map_entry
     with two items.  With ncfg=2 every resource exists in the default and in a `de` configuration."""
     out = []
@@ -35,6 +35,10 @@ def table_bytes(K, complex_at, DT, DA, ncfg=1):
             for _ in range(2):
                 raw += list(struct.pack('<I', 0x01000000 + slot)) + list(struct.pack('<HB', 8, 0)) + [DT[slot]] + le_bytes(DA[slot], 4)
                 slot += 1
+        elif compact:
+            # compact entry: key index (16 bit), flags = FLAG_COMPACT | data type << 8, data word
+            raw = list(struct.pack('<H', i)) + [0x08, DT[slot]] + le_bytes(DA[slot], 4)
+            slot += 1
         else:
             raw = list(struct.pack('<HHI', 8, 0, i)) + list(struct.pack('<HB', 8, 0)) + [DT[slot]] + le_bytes(DA[slot], 4)
             slot += 1
@@ -96,6 +100,7 @@ def ref_reachable(K, complex_at, dt, da, ncfg=1):
 def job(jc, spec):
     K, complex_at = spec[0], spec[1]
     ncfg = spec[2] if len(spec) > 2 else 1
+    compact = len(spec) > 3 and spec[3] == 'compact'
     axml = common.axmlmod()
     n = nslots(K, complex_at, ncfg)
     DT = [fresh_byte('dt%d' % i) for i in range(n)]
@@ -107,8 +112,8 @@ def job(jc, spec):
         # a reference points at one of the table's entries, at a missing id, or is the null reference
         pre.append(z3.Implies(DT[i].e == TYPE_REFERENCE, z3.Or([DA[i].e == r for r in ids] + [DA[i].e == BASE + 0x77, DA[i].e == 0])))
     eng = jc.new_engine(pre=pre)
-    label = 'K=%d complex_at=%s configurations=%d' % (K, complex_at, ncfg)
-    raws = table_bytes(K, complex_at, DT, DA, ncfg)
+    label = 'K=%d complex_at=%s configurations=%d%s' % (K, complex_at, ncfg, ' compact entries' if compact else '')
+    raws = table_bytes(K, complex_at, DT, DA, ncfg, compact)
 
     def go():
         p = axml.ARSCParser.__new__(axml.ARSCParser)
@@ -145,7 +150,7 @@ def job(jc, spec):
         return flatten(res)
 
     def ext(m):
-        return dict(K=K, complex_at=complex_at, ncfg=ncfg, dt=[mval(m, x) for x in DT], da=[mval(m, x) & 0xFFFFFFFF for x in DA])
+        return dict(K=K, complex_at=complex_at, ncfg=ncfg, compact=compact, dt=[mval(m, x) for x in DT], da=[mval(m, x) & 0xFFFFFFFF for x in DA])
     for pc, (kind, r) in eng.explore(go, keep_pcs=True):
         jc.reached('explored')
         if kind == 'exc':
@@ -205,8 +210,9 @@ def run(ctx):
     axml.ord = __import__('vf.sstr', fromlist=['sx_ord']).sx_ord
     CFG_DE[0] = axml.ARSCResTableConfig(None, locale='de')
     ctx.functions_encoded = FUNCS
-    specs = [(1, None), (2, None), (3, None), (3, 1), (4, 0), (2, None, 2)] + ([(4, None), (5, None), (5, 2), (3, None, 2)] if ctx.thorough else [])
-    ctx.bounds = dict(tables=[dict(entries=s_[0], complex_entry_at=s_[1], configurations=(s_[2] if len(s_) > 2 else 1)) for s_ in specs],
+    specs = [(1, None), (2, None), (3, None), (3, 1), (4, 0), (2, None, 2), (2, None, 1, 'compact'), (3, None, 1, 'compact')] + \
+            ([(4, None), (5, None), (5, 2), (3, None, 2), (4, None, 1, 'compact')] if ctx.thorough else [])
+    ctx.bounds = dict(tables=[dict(entries=s_[0], complex_entry_at=s_[1], configurations=(s_[2] if len(s_) > 2 else 1), compact=len(s_) > 3) for s_ in specs],
                       per_value='type in {reference, int_dec}, reference target any table entry / a missing id / null, literal any 32-bit word',
                       unwinding='resolution depth <= 3K+3 and <= 4(n+1)(K+1) resolution steps')
     ctx.stubs = ['SymIO / SymStruct', 'table built from real ARSCResTableEntry objects placed in resource_values (no file parse)',
@@ -219,10 +225,10 @@ def run(ctx):
     ctx.pmap(job, specs)
 
 
-def _resolve_concrete(K, complex_at, dt, da, ncfg=1):
+def _resolve_concrete(K, complex_at, dt, da, ncfg=1, compact=False):
     import io
     from androguard.core import axml
-    raws = table_bytes(K, complex_at, dt, [SInt.of(x) for x in da], ncfg)
+    raws = table_bytes(K, complex_at, dt, [SInt.of(x) for x in da], ncfg, compact)
     p = axml.ARSCParser.__new__(axml.ARSCParser)
     p.analyzed = True
     cfg = axml.ARSCResTableConfig.default_config()
@@ -248,7 +254,7 @@ def concrete(c):
 def replay(w):
     sys.setrecursionlimit(600)
     try:
-        got = _resolve_concrete(w['K'], w['complex_at'], w['dt'], w['da'], w.get('ncfg', 1))
+        got = _resolve_concrete(w['K'], w['complex_at'], w['dt'], w['da'], w.get('ncfg', 1), w.get('compact', False))
     except RecursionError:
         return True, 'resolving 0x%08x recurses without end (types %r, data %r)' % (BASE, w['dt'], [hex(x) for x in w['da']])
     except Exception as e:
